@@ -305,4 +305,74 @@ theorem q2dTermB_dt_real (G : Fam ℝ) (m : ℕ) (da db : List ℝ) (u t : ℝ) 
   refine this.congr_deriv ?_
   push_cast
   ring
+
+/-- **`zernike_nm_der`, azimuthal output**: the second component of `zernikeDer`, fed with the real `cos(|m|t)`, `sin(|m|t)`, is
+`∂/∂t` of `znorm · r^{|m|} P(2r²-1) · (cos(mt) | sin(|m|t) | 1)` — sign and the `|m|` vs `m` choice included -/
+theorem zernikeDer_dt_real [DecidableEq ℝ] (n : ℕ) (m : ℤ) (r zn t : ℝ) :
+    HasDerivAt
+      (fun q => zn * zernikeRadial n m.natAbs r *
+        (if m = 0 then 1 else if m < 0 then sin ((m.natAbs : ℝ) * q) else cos ((m.natAbs : ℝ) * q)))
+      (zernikeDer n m r (cos ((m.natAbs : ℝ) * t)) (sin ((m.natAbs : ℝ) * t)) zn).2 t := by
+  by_cases h0 : m = 0
+  · subst h0
+    simp only [zernikeDer, beq_self_eq_true, if_true, ofInt_eq, Int.cast_zero, if_true]
+    exact hasDerivAt_const t _
+  · have hb : (m == 0) = false := by simpa using h0
+    by_cases hneg : m < 0
+    · simp only [zernikeDer, hb, Bool.false_eq_true, if_false, h0, hneg, if_true, zernikeRadial, ofInt_eq, npow_eq]
+      have := (hasDerivAt_sin_mul (m.natAbs : ℝ) t).const_mul (zn * (r ^ m.natAbs *
+        jacobi ((n - m.natAbs) / 2) ((0 : ℤ) : ℝ) (((m.natAbs : ℕ) : ℤ) : ℝ) (((2 : ℤ) : ℝ) * r ^ 2 - ((1 : ℤ) : ℝ))))
+      refine this.congr_deriv ?_
+      simp only [Int.cast_natCast]
+      ring
+    · have hm : (m : ℝ) = (m.natAbs : ℝ) := by
+        have e : (m.natAbs : ℤ) = m := Int.natAbs_of_nonneg (by omega)
+        calc (m : ℝ) = (((m.natAbs : ℕ) : ℤ) : ℝ) := by rw [e]
+          _ = (m.natAbs : ℝ) := Int.cast_natCast _
+      simp only [zernikeDer, hb, Bool.false_eq_true, if_false, h0, hneg, zernikeRadial, ofInt_eq, npow_eq]
+      have := (hasDerivAt_cos_mul (m.natAbs : ℝ) t).const_mul (zn * (r ^ m.natAbs *
+        jacobi ((n - m.natAbs) / 2) ((0 : ℤ) : ℝ) (((m.natAbs : ℕ) : ℤ) : ℝ) (((2 : ℤ) : ℝ) * r ^ 2 - ((1 : ℤ) : ℝ))))
+      refine this.congr_deriv ?_
+      simp only [Int.cast_natCast, hm]
+      ring
+
+/-- **`Q2d_and_der`, composed, radial**: for ANY departure `zf` that is differentiable in `u = ρ/Rn` (the 2D-Q sum; its slope is
+what `compute_z_zprime_Q2d` returns), the radial slope assembled from `off_axis_conic_sigma_der`, `off_axis_conic_der` and the
+product rule is the `ρ`-derivative of `zf(ρ/Rn) · σ⁻¹(ρ, t) + z_base(ρ, t)` -/
+theorem q2d_and_der_composed_r (c kappa s ct ctp Rn r z' zt st bt : ℝ) (zf : ℝ → ℝ) (hR : Rn ≠ 0)
+    (hz : HasDerivAt zf z' (r / Rn)) (h : 0 < phiRad c kappa (oacAgg r s ct)) (hL : 0 < psiRad c kappa (oacAgg r s ct)) :
+    HasDerivAt
+      (fun q => zf (q / Rn) * (√(psiRad c kappa (oacAgg q s ct)) / √(phiRad c kappa (oacAgg q s ct)))
+        + conicSag c (oacAgg q s ct) (√(phiRad c kappa (oacAgg q s ct))))
+      (q2dAndDer (√(psiRad c kappa (oacAgg r s ct)) / √(phiRad c kappa (oacAgg r s ct))) (zf (r / Rn)) z' zt
+        (oacSigmaInvDer c kappa r s ct ctp (√(phiRad c kappa (oacAgg r s ct))) (√(psiRad c kappa (oacAgg r s ct)))).1 st
+        (conicSag c (oacAgg r s ct) (√(phiRad c kappa (oacAgg r s ct))))
+        (oacDer c kappa r s ct ctp (√(phiRad c kappa (oacAgg r s ct)))).1 bt Rn).2.1 r :=
+  q2d_and_der_correct zf _ _ r z' _ _ Rn hR hz (sigma_inv_der_r_correct c kappa r s ct ctp h hL)
+    (oac_der_r_correct c kappa r s ct ctp h) zt st bt
+
+/-- **`Q2d_and_der`, composed, azimuthal** (section shifted along x; the y case is the same with `sin`, `cos`) -/
+theorem q2d_and_der_composed_t_cos (c kappa s r Rn t z' zr sr br : ℝ) (zf : ℝ → ℝ) (hz : HasDerivAt zf z' t)
+    (h : 0 < phiRad c kappa (oacAgg r s (cos t))) (hL : 0 < psiRad c kappa (oacAgg r s (cos t))) :
+    HasDerivAt
+      (fun q => zf q * (√(psiRad c kappa (oacAgg r s (cos q))) / √(phiRad c kappa (oacAgg r s (cos q))))
+        + conicSag c (oacAgg r s (cos q)) (√(phiRad c kappa (oacAgg r s (cos q)))))
+      (q2dAndDer (√(psiRad c kappa (oacAgg r s (cos t))) / √(phiRad c kappa (oacAgg r s (cos t)))) (zf t) zr z' sr
+        (oacSigmaInvDer c kappa r s (cos t) (-sin t) (√(phiRad c kappa (oacAgg r s (cos t)))) (√(psiRad c kappa (oacAgg r s (cos t))))).2
+        (conicSag c (oacAgg r s (cos t)) (√(phiRad c kappa (oacAgg r s (cos t))))) br
+        (oacDer c kappa r s (cos t) (-sin t) (√(phiRad c kappa (oacAgg r s (cos t))))).2 Rn).2.2 t :=
+  q2d_and_der_t_correct zf _ _ t z' _ _ hz (sigma_inv_der_t_cos_correct c kappa r s t h hL)
+    (oac_der_t_cos_correct c kappa r s t h) zr sr br Rn
+
+theorem q2d_and_der_composed_t_sin (c kappa s r Rn t z' zr sr br : ℝ) (zf : ℝ → ℝ) (hz : HasDerivAt zf z' t)
+    (h : 0 < phiRad c kappa (oacAgg r s (sin t))) (hL : 0 < psiRad c kappa (oacAgg r s (sin t))) :
+    HasDerivAt
+      (fun q => zf q * (√(psiRad c kappa (oacAgg r s (sin q))) / √(phiRad c kappa (oacAgg r s (sin q))))
+        + conicSag c (oacAgg r s (sin q)) (√(phiRad c kappa (oacAgg r s (sin q)))))
+      (q2dAndDer (√(psiRad c kappa (oacAgg r s (sin t))) / √(phiRad c kappa (oacAgg r s (sin t)))) (zf t) zr z' sr
+        (oacSigmaInvDer c kappa r s (sin t) (cos t) (√(phiRad c kappa (oacAgg r s (sin t)))) (√(psiRad c kappa (oacAgg r s (sin t))))).2
+        (conicSag c (oacAgg r s (sin t)) (√(phiRad c kappa (oacAgg r s (sin t))))) br
+        (oacDer c kappa r s (sin t) (cos t) (√(phiRad c kappa (oacAgg r s (sin t))))).2 Rn).2.2 t :=
+  q2d_and_der_t_correct zf _ _ t z' _ _ hz (sigma_inv_der_t_sin_correct c kappa r s t h hL)
+    (oac_der_t_sin_correct c kappa r s t h) zr sr br Rn
 end C10L
